@@ -241,17 +241,24 @@ def simp_bits(know, bits):
 
 
 def _full_opq_leaf(bits):
-    """If bits are exactly all bits of one opaque trunc/lin/wrap leaf, return it."""
+    """If bits are the low k bits (in order) of one opaque trunc/lin/wrap leaf, zero-extended, return (leaf, k)."""
     b0 = bits[0]
     if not isinstance(b0, tuple):
         return None
     leaf = b0[0]
-    if leaf[0] != 'opq' or leaf[2] not in ('trunc', 'lin', 'wrap') or leaf[1] != len(bits):
+    if leaf[0] != 'opq' or leaf[2] not in ('trunc', 'lin', 'wrap'):
         return None
+    k = 0
     for i, b in enumerate(bits):
-        if not isinstance(b, tuple) or b[0] != leaf or b[1] != i:
+        if isinstance(b, tuple) and b[0] == leaf and b[1] == i and k == i:
+            k += 1
+        elif b == 0 and k > 0:
+            continue
+        else:
             return None
-    return leaf
+    if k == 0 or k > leaf[1]:
+        return None
+    return leaf, k
 
 
 def simp(know, t):
@@ -260,16 +267,19 @@ def simp(know, t):
     if t[0] == 'k':
         return t
     if t[0] == 'bv':
-        leaf = _full_opq_leaf(t[2])
-        if leaf is not None:
+        lk = _full_opq_leaf(t[2])
+        if lk is not None:
+            leaf, k = lk
             inner = leaf[3] if leaf[2] != 'lin' else ('lin', leaf[1], leaf[3][0], leaf[3][1])
             inner = simp(know, inner)
             if inner[0] == 'k':
-                return K(t[1], inner[2])
+                return K(t[1], inner[2] & ((1 << k) - 1))
             if inner[0] == 'lin':
                 lo, hi = know.interval(inner[2], dict(inner[3]))
-                if lo >= 0 and hi < (1 << t[1]):
+                if lo >= 0 and hi < (1 << k):
                     return mk_lin(t[1], inner[2], dict(inner[3]))
+            if inner[0] == 'bv' and k >= inner[1]:
+                return mk_bv(t[1], tuple(inner[2]) + (0,) * (t[1] - inner[1])) if t[1] >= inner[1] else t
             return t
         return mk_bv(t[1], simp_bits(know, t[2]))
     if t[0] == 'lin':
